@@ -95,14 +95,14 @@ def run(ck):
     b = X.Batch(ck)
     b.run(X.sanity_scenario(), ORACLES)
     systematic(ck, b, ck.n(14, 110), ck.n(2, 1))
-    random_kills(ck, b, ck.n(70, 1500))
-    if ck.tier == 'thorough':
-        from . import execproc
-        execproc.kill_runs(ck, ck.n(0, 40))
+    random_kills(ck, b, ck.n(70, 1200))
     for sc, res, _ in b.items[:400]:
         if len(ck.samples) < 3 and any(e[0] == 'ECrash' for e in res.trace):
             ck.sample({'program': sc['program'], 'backend': sc['backend'], 'events': [X.ev_show(e) for e in res.trace[:40]]})
     b.flush()
+    if ck.tier == 'thorough':
+        from . import execproc
+        execproc.kill_runs(ck, ck.n(0, 30))
 
 
 def replay(obj):
